@@ -22,7 +22,9 @@ TRUSTED = ["model Render.lean (renderer, alias as a tag rendering its own patter
 
 PATTERNS = ["%Count()", "%Count(1)", "%Count(start=5, step=5)", "%Count(1, 1, 3)", "%Count(width=2, common=True)", "%Name()",
             "%Base()", "x%Ext()", "%Upper(){%Base()}", "%Lower(){%Base()|%Upper()}", "%Lower(){%Name()}-%Count(10)", "lit", "%Upper(){a%Count()b}",
-            "%Count()%Count()", "%Upper(){%Base()|%Lower()}"]
+            "%Count()%Count()", "%Upper(){%Base()|%Lower()}",
+            # patterns are text: leading/trailing/inner blanks belong to them
+            " - ", "  %Base()", "%Base()  ", " ", "a  b", " %Count() "]
 FILES = ["a.txt", "b.txt", "Sub/c.TXT", "Sub/d", "Sub/Deep/e.md", "f", "Other/g.x"]
 
 
@@ -45,7 +47,9 @@ def gen_alias(rng, n, tier):
         use = rng.choice(names)
         ref = "%Alias." + use + "()"
         host = rng.choice(["{r}", "{r}-{r}", "a{r}b%Name()", "%Upper(){{x{r}y}}", "{r}|%Upper()", "%Lower(){{{r}}}_{r}", "{r}%Count(100)", "%Base()_{r}%Ext()"]).format(r=ref)
-        misuse = rng.choice([None, None, None, "%Alias." + use + "(1)", "%Alias." + use + "(){x}", "%Alias." + use + "(a=1)"])
+        misuse = rng.choice([None, None, None, "%Alias." + use + "(1)", "%Alias." + use + "(){x}", "%Alias." + use + "(a=1)",
+                             "%Alias." + use + "(0)", "%Alias." + use + "('')", "%Alias." + use + "(false)", "%Alias." + use + "(0, '')",
+                             "%Alias." + use + "(){}", "%Alias." + use + "(a=0)", "%Alias." + use + "(flag)"])
         files = [rng.choice(FILES) for _ in range(rng.randint(4, 7))]
         yield {"aliases": aliases, "host": host, "use": use, "misuse": misuse, "files": files}
 
